@@ -6,6 +6,7 @@ import (
 	"time"
 
 	sdkmath "cosmossdk.io/math"
+	tmbytes "github.com/cometbft/cometbft/libs/bytes"
 	sdk "github.com/cosmos/cosmos-sdk/types"
 	authtypes "github.com/cosmos/cosmos-sdk/x/auth/types"
 
@@ -27,10 +28,13 @@ func VerifC12_HTLC() {
 	e, k := c12Env(h)
 	deputy, user, other := vAddr(5), vAddr(1), vAddr(2)
 	asset := types.AssetParam{Denom: hDenom,
-		SupplyLimit: types.SupplyLimit{Limit: sdkmath.NewInt(1_000_000_000), TimeLimited: false, TimePeriod: time.Hour, TimeBasedLimit: sdkmath.ZeroInt()},
+		// the asset's limits are symbolic: the history may fill the asset exactly to a limit
+		SupplyLimit: types.SupplyLimit{Limit: verifIntIn("limit", big.NewInt(1), verifPow2(40)), TimeLimited: verifBool("timeLimited"), TimePeriod: time.Hour, TimeBasedLimit: verifIntIn("timeLimit", big.NewInt(0), verifPow2(40))},
 		Active:      true, DeputyAddress: deputy.String(), FixedFee: sdkmath.NewInt(1), MinSwapAmount: sdkmath.NewInt(1), MaxSwapAmount: sdkmath.NewInt(1_000_000),
 		MinBlockLock: types.MinTimeLock, MaxBlockLock: types.MaxTimeLock}
-	if err := k.SetParams(e.ctx, types.Params{AssetParams: []types.AssetParam{asset}}); err != nil {
+	params := types.Params{AssetParams: []types.AssetParam{asset}}
+	verifAssume(params.Validate() == nil)
+	if err := k.SetParams(e.ctx, params); err != nil {
 		verifFail("params rejected")
 	}
 	now := time.Unix(1700000000, 0)
@@ -64,6 +68,17 @@ func VerifC12_HTLC() {
 		verifAssume(err == nil)
 	}
 	create("1")
+	claimed := verifChoice("claimFirst", 2) == 1
+	if claimed {
+		// the first contract is completed before the second is created (an incoming transfer then counts
+		// as current supply, possibly of an earlier limit period)
+		var first string
+		k.IterateHTLCs(ctx, func(id tmbytes.HexBytes, _ types.HTLC) bool { first = id.String(); return true })
+		cm := &types.MsgClaimHTLC{Sender: other.String(), Id: first, Secret: hex.EncodeToString(append(secret[:31], 1))}
+		verifAssume(cm.ValidateBasic() == nil)
+		err, _ := e.verifDeliver(func() error { _, err := srv.ClaimHTLC(ctx, cm); return err })
+		verifAssume(err == nil)
+	}
 	if verifChoice("two", 2) == 1 {
 		create("22")
 	}
@@ -86,7 +101,21 @@ func VerifC12_HTLC() {
 	}
 	verifAssert(!panicked, "the exported genesis imports without panic")
 	verifCover("roundtrip")
-	verifAssert(verifDeepEqual(e.ms.stores[types.StoreKey].ents, e2.ms.stores[types.StoreKey].ents), "import reproduces the store key for key")
+	if !claimed {
+		verifAssert(verifDeepEqual(e.ms.stores[types.StoreKey].ents, e2.ms.stores[types.StoreKey].ents), "import reproduces the store key for key")
+	}
+	// completed contracts are dropped on export by design; every OPEN contract must answer identically
+	k.IterateHTLCs(ctx, func(id tmbytes.HexBytes, h1 types.HTLC) bool {
+		if h1.State == types.Open {
+			h2, ok := k2.GetHTLC(e2.ctx, id)
+			verifAssert(ok && verifDeepEqual(h1, h2), "an open contract answers identically after re-import")
+			verifAssert(e2.store().Has(types.GetHTLCExpiredQueueKey(h1.ExpirationHeight, id)), "an open contract keeps its expiry queue entry after re-import")
+		}
+		return false
+	})
+	s1, _ := k.GetAssetSupply(ctx, hDenom)
+	s2, ok2 := k2.GetAssetSupply(e2.ctx, hDenom)
+	verifAssert(ok2 && verifDeepEqual(s1, s2), "the asset supply record answers identically after re-import")
 	g2 := ExportGenesis(e2.ctx.WithBlockTime(now), k2)
 	verifAssert(len(g2.Htlcs) == len(g.Htlcs) && verifDeepEqual(g.Htlcs, g2.Htlcs) && verifDeepEqual(g.Supplies, g2.Supplies) && verifDeepEqual(g.Params, g2.Params), "a second export equals the first")
 	verifAssert(g2.PreviousBlockTime.Equal(g.PreviousBlockTime), "previous block time survives")
